@@ -108,6 +108,7 @@ fn generate_dynamic(g: &mut Gen, stats: &mut GenStats) -> Scenario {
         layers: vec![Layer::Fe(vec![])],
         taps: g.rng.chance(1, 3),
         erased: false,
+        form: g.rng.below(8) as u8,
     };
     if g.rng.chance(5, 10) {
         let (e, r) = g.walk_glob(&model, &base, 1, true, &mut stats.rejections);
@@ -260,6 +261,7 @@ pub fn generate(rng: &mut Rng, tier: Tier, stats: &mut GenStats) -> Scenario {
         layers: vec![Layer::Fe(vec![])],
         taps: g.rng.chance(1, 2),
         erased: false,
+        form: g.rng.below(8) as u8,
     };
     if g.rng.chance(6, 10) {
         w.source = Source::Glob {
